@@ -36,6 +36,9 @@ def t0(cfg, x: typing.Optional[int] = None): ...
 def t1(cfg, x: typing.List[str], *, k: typing.Dict[str, int] = None) -> typing.Optional[str]: ...
 def t2(cfg, cb: typing.Callable[[int], str] = None, *rest: int): ...
 def t3(cfg, x: "typing.List[int]", y: typing.Union[int, str] = 1) -> "None": ...
+# functions that take the configuration through *args (no explicit first parameter)
+def v0(*args, **kw): ...
+def v1(*a, k): ...
 
 
 def _local_class_method():
@@ -67,14 +70,18 @@ def _same_name(kind: int):
 
 
 METHODS = (m0, m1, m2, m3, m4, m5, m6, m7, m8, m9, m10, m11, _same_name(0), _same_name(1), _same_name(2),
-           lambda cfg, x: x, lambda cfg, *, y=2: y, _USES_LOCAL, t0, t1, t2, t3)
+           lambda cfg, x: x, lambda cfg, *, y=2: y, _USES_LOCAL, t0, t1, t2, t3, v0, v1)
 NMETH = len(METHODS)
 
 
 def _params(fn):
     """(name, kind) of the bound function's parameters, the configuration parameter replaced by self"""
     out = []
-    for n, p in enumerate(inspect.signature(fn).parameters.values()):
+    params = list(inspect.signature(fn).parameters.values())
+    if params and params[0].kind.name == "VAR_POSITIONAL":
+        # the configuration arrives as args[0]: the bound function still takes *args
+        return [("self", "POSITIONAL_OR_KEYWORD")] + [(p.name, p.kind.name) for p in params]
+    for n, p in enumerate(params):
         out.append(("self" if n == 0 else p.name, p.kind.name))
     return out
 
@@ -212,7 +219,7 @@ def _stub(f_scalars: bool, f_containers: bool, f_nested: bool, f_ct: bool, f_vir
 
 
 WHAT = ("symbolic schema shape (presence of scalar / container / nested schema / config type / virtual / "
-        "secure+challenge fields, up to two instance methods drawn from 22 functions (12 signature shapes, four with typing-construct annotations, three functions sharing one qualified name, two lambdas, one annotated with a function-local class), target = Schema | Config "
+        "secure+challenge fields, up to two instance methods drawn from 24 functions (12 signature shapes, four with typing-construct annotations, two taking the configuration through *args, three functions sharing one qualified name, two lambdas, one annotated with a function-local class), target = Schema | Config "
         "| ConfigType): the stub parses, declares one class with an annotated attribute per field, __init__ takes "
         "exactly the persistent fields, one method per instance method with the same parameter names and kinds; "
         "nothing on stdout; schema and configuration unchanged")
@@ -235,10 +242,10 @@ def _mk_fields(target: int):
 def _mk_methods(mi: int):
     @obligation(prop="C20", name="stub_methods_m%d" % mi, group="stub_methods", sites=("stub",), encodes=ENC,
                 budget={"quick": 240, "thorough": 600},
-                what=WHAT + " [first method shape %d, second method any of 22 or none, all three targets]" % mi)
+                what=WHAT + " [first method shape %d, second method any of 24 or none, all three targets]" % mi)
     def ob(mj: int, target: int, f_virtual: bool) -> bool:
         """
-        pre: -1 <= mj < 22 and 0 <= target <= 2
+        pre: -1 <= mj < 24 and 0 <= target <= 2
         post: _
         """
         return _stub(False, False, False, False, f_virtual, False, mi, mj, target)
